@@ -97,6 +97,13 @@ def feature_programs():
     out.append(("same_message_name_in_two_packages", {
         "demo/v1/c.proto": 'syntax = "proto3";\npackage demo.v1;\nmessage Config { map<string, string> labels = 1; map<int32, bool> flags = 2; message Inner { int32 x = 1; } map<string, Inner> inners = 3; }\n',
         "demo/v2/c.proto": 'syntax = "proto3";\npackage demo.v2;\nmessage Config { map<string, int64> labels = 1; map<string, double> limits = 2; message Inner { string y = 1; } map<int64, Inner> inners = 3; repeated string flags = 4; }\n'}))
+    # two packages whose messages refer to each other (the files do not form a cycle, the packages do): whichever of them an
+    # application imports first, both must come up
+    out.append(("packages_referring_to_each_other", {
+        "shop/orders/item.proto": 'syntax = "proto3";\npackage shop.orders;\nmessage Item { string sku = 1; int32 n = 2; }\n',
+        "shop/users/user.proto": 'syntax = "proto3";\npackage shop.users;\nimport "shop/orders/item.proto";\nmessage User { string name = 1; repeated shop.orders.Item wishlist = 2; }\n',
+        "shop/orders/order.proto": 'syntax = "proto3";\npackage shop.orders;\nimport "shop/users/user.proto";\nimport "shop/orders/item.proto";\n'
+                                   'message Order { shop.users.User buyer = 1; repeated Item items = 2; map<string, shop.users.User> watchers = 3; }\n'}))
     return out
 
 
